@@ -149,7 +149,7 @@ def check_zero_mask_preserved(p, report, funcs, facts):
 def run(p, report, tier):
     report.rule("R2.1", "within one iteration of a selection loop the NaN mask of the current pick is applied only "
                 "after the returned row was snapshotted (or to an array that is not returned), and masks of earlier "
-                "picks dominate the selection", floor=14)
+                "picks dominate the selection", floor=12)
     report.rule("R2.2", "a NaN mask of earlier picks on the returned row is matched by an exclusion in the operand "
                 "the selection call reads (operand derived from the masked row, or itself dependent on the picks)", floor=5)
     report.rule("R1.3", "NaN at every non-candidate: scatter targets are NaN-filled (shared with C01)", floor=25)
@@ -162,7 +162,7 @@ def run(p, report, tier):
     # R2.3: exclusion on every path + index translation + zero-mass masks survive
     report.rule("R2.3", "the exclusion of earlier picks reaches the selection on every path (shared R1.4m), positions "
                 "selected over a shrunk pool are translated (shared R1.6), and a zero-probability mask is not followed "
-                "by a transformation that does not preserve zero (power, exp, additive shift) before the draw", floor=16)
+                "by a transformation that does not preserve zero (power, exp, additive shift) before the draw", floor=12)
     sub = c01.Report_proxy(report, {"R1.4m": "R2.3", "R1.6": "R2.3"})
     c01.check_exclusion_mechanisms(p, sub, funcs, facts)
     from . import c08
